@@ -698,7 +698,7 @@ def run(ctx):
             raise MachineryError("TLA+ reference disagrees with NumPy on %r: numpy=%r spec=%r" % (c["c"], bad, c["e"]))
     groups, chunkings, emc = group_cases(cases)
     always, brecs = border_stratum(groups, group_cases.border, bn2, not ctx.quick)
-    items, total, sampled = replay_cases(ctx, groups, chunkings, ctx.pick(6000, 50000), 1, always=always)
+    items, total, sampled = replay_cases(ctx, groups, chunkings, ctx.pick(6000, 40000), 1, always=always)
     for it in items[:3]:
         ctx.sample({"case": it[0], "run": it[2][0]})
     # ensure_minimum_chunksize: real results against the transcription (informative) and the contract (TLC decides)
